@@ -216,6 +216,7 @@ type World struct {
 	pendingJump  time.Duration
 	wsConns      []*wsConn
 	earlySeen    map[string]int
+	pgClassSeen  map[string]int
 	lateSeen     map[string]bool
 	outcomeQ     []outcomeRec
 	onHookEvent  func(name string, kv ...any)
